@@ -33,7 +33,7 @@ def run(pid, tier, replay=None):
     r = vlib.run_harness([exe, out, sc.path("g"), "14"], timeout=1800)
     m = re.search(r"^SUMMARY (\{.*\})$", r.stdout or "", re.M)
     if r.returncode != 0 or not m:
-        if r.returncode in (97, 98, 99, -6, -11) or "Sanitizer" in (r.stderr or ""):
+        if r.returncode in (96, 97, 98, 99, -6, -11) or "Sanitizer" in (r.stderr or ""):
             ck.violation("crash", {"what": "sanitizer abort in the factorization routines", "stderr": (r.stderr or "")[-1500:]})
             return ck.finish()
         raise Broken("harness failed rc=%s: %s" % (r.returncode, (r.stderr or "")[-1500:]))
@@ -50,7 +50,7 @@ def run(pid, tier, replay=None):
         rw = vlib.run_harness([exe_w, out, sc.path("g%d" % real), "4", "4"], timeout=1800)
         mw = re.search(r"^SUMMARY (\{.*\})$", rw.stdout or "", re.M)
         if rw.returncode != 0 or not mw:
-            if rw.returncode in (97, 98, 99, -6, -11) or "Sanitizer" in (rw.stderr or ""):
+            if rw.returncode in (96, 97, 98, 99, -6, -11) or "Sanitizer" in (rw.stderr or ""):
                 ck.violation("crash", {"what": "sanitizer abort in the factorization routines (real width %d)" % real, "stderr": (rw.stderr or "")[-1500:]})
                 continue
             raise Broken("harness (real width %d) failed rc=%s: %s" % (real, rw.returncode, (rw.stderr or "")[-1500:]))
